@@ -31,6 +31,7 @@ NONTRIVIAL_RULE = "executed an external transition that exited or entered at lea
 BOUNDS = {
     "step_order": "skeleton fixed per item; every legal configuration x publicly reachable history, every active source, every node as target, reenter in {T,F}, both engines",
     "internal": "skeleton fixed per item; every legal configuration, every active source; targetless and internal self-transition",
+    "abort_frame": "skeletons with parallel states; as step_order, but the transition's action list ends with an action nobody implements, so it aborts after its exit phase and is rolled back: configuration unchanged, and no _cancel_state_tasks / _schedule_state_tasks call for any state the transition did not exit (the frame condition under rollback)",
 }
 ASSUMPTIONS = list(base.ASSUMPTIONS) + [
     "timer/service effects are observed at the engine's own _cancel_state_tasks / _schedule_state_tasks entry points (call-through wrappers on the interpreter instance); the skeleton states declare no timers or services themselves",
@@ -186,6 +187,48 @@ def step_order(eng: int, c0: int, c1: int, c2: int, c3: int, c4: int, c5: int, h
     return verdict(why is None, nontrivial=any(k != "tr" for k, _s, _e in log))
 
 
+def abort_frame(eng: int, c0: int, c1: int, c2: int, c3: int, c4: int, c5: int, hsel: int, srcsel: int, tgt: int, reenter: bool) -> bool:
+    """
+    pre: 0 <= eng <= 1
+    pre: gate('abort_frame', eng=eng, c0=c0, c1=c1, c2=c2, c3=c3, c4=c4, c5=c5, hsel=hsel, srcsel=srcsel, tgt=tgt, reenter=reenter)
+    post: _
+    """
+    from xstate_statemachine.events import Event
+    from xstate_statemachine.models import ActionDefinition, TransitionDefinition
+
+    sk = base._sk()
+    target = base._node_for(tgt)
+    pre = base._prestate(sk, eng, [c0, c1, c2, c3, c4, c5], hsel)
+    if pre is None:
+        return verdict(True, nontrivial=False)
+    interp, active, watch = pre
+    src = active[pick(srcsel, len(active))]
+    # the transition's own action list names an action nobody implements: it aborts after the exit phase and is rolled back
+    tr = TransitionDefinition("E", {"target": "#" + target.id, "reenter": True if reenter else False}, source=src,
+                              actions=[ActionDefinition({"type": "tr", "params": {"s": "T"}}), ActionDefinition("c03_not_implemented")])
+    LAST.update({"src": src.id, "target": "#" + target.id, "reenter": bool(reenter)})
+    calls: List[Any] = []
+    _wrap_tasks(interp, eng, calls)
+    before = sorted(n.id for n in active)
+    err = base._run_transition(interp, eng, tr, Event("E", {"k": 7}))
+    if err is None:
+        return verdict(True, nontrivial=False)      # (an internal self-transition without exits may run its list differently: not this obligation)
+    log = list(interp.__dict__["_rec"])
+    exited = {s_ for k, s_, _e in log if k == "ex"}
+    after = sorted(n.id for n in interp._active_state_nodes)
+    why = None
+    if after != before:
+        why = f"configuration after the rolled-back transition: {after}, before: {before}"
+    else:
+        outside = [(k, sid) for k, sid in calls if sid not in exited]
+        if outside:
+            why = (f"the rolled-back transition touched timers/services of states it never exited: {outside} "
+                   f"(exited: {sorted(exited)}) - states outside the transition's domain must see no cancellation and no restart")
+    if why is not None:
+        _note(f"{'sync' if eng == 0 else 'async'} {src.id} -> #{target.id} reenter={bool(reenter)} from {before} aborted with {err}: {why}")
+    return verdict(why is None, nontrivial=bool(exited))
+
+
 def internal(eng: int, c0: int, c1: int, c2: int, c3: int, c4: int, c5: int, srcsel: int, targetless: bool) -> bool:
     """
     pre: 0 <= eng <= 1
@@ -218,7 +261,7 @@ def internal(eng: int, c0: int, c1: int, c2: int, c3: int, c4: int, c5: int, src
     return verdict(why is None)
 
 
-OBLIGATIONS = {"step_order": step_order, "internal": internal}
+OBLIGATIONS = {"step_order": step_order, "internal": internal, "abort_frame": abort_frame}
 
 
 def items(tier: str, seed: int) -> List[Dict[str, Any]]:
@@ -232,6 +275,10 @@ def items(tier: str, seed: int) -> List[Dict[str, Any]]:
             out.append({"ob": "step_order", "params": {"sid": sid, "spec": spec, "tgts": [t, t + 1]},
                         "timeout": 200 if quick else 500, "label": f"step_order[{sid},tgt={t}]"})
         out.append({"ob": "internal", "params": {"sid": sid, "spec": spec}, "timeout": 120, "label": f"internal[{sid}]"})
+        if sid in (("CUR3", "CUR4", "CUR7", "CUR11") if quick else ("CUR3", "CUR4", "CUR6", "CUR7", "CUR10", "CUR11", "CUR13", "CUR14", "CUR16")):
+            for t in range(n):
+                out.append({"ob": "abort_frame", "params": {"sid": sid, "spec": spec, "tgts": [t, t + 1]}, "timeout": 300 if quick else 900,
+                            "label": f"abort_frame[{sid},tgt={t}]"})
     for sid, spec in fam:
         out.append({"ob": "step_order", "params": {"sid": sid, "spec": spec}, "timeout": 150 if quick else 300,
                     "label": f"step_order[{sid}]"})
